@@ -924,29 +924,69 @@ def r132(ctx, repo, model, pattern, chk):
            "refer to the unfiltered data)", node=chk,
            label="refuses filtered datasets", nontrivial=False)
 
-    # every collected method returns a list on every path
+    # every collected method returns a list on every path (same-class
+    # helper methods and module-level functions are followed)
+    modfuncs = {f.name: f for f in repo.tree(CHK).body
+                if isinstance(f, ast.FunctionDef)}
+
+    def callee(call):
+        fn = call.func
+        if isinstance(fn, ast.Attribute) and isinstance(
+                fn.value, ast.Name) and fn.value.id in ("self", "cls",
+                                                        model.cls.name):
+            return model.methods.get(fn.attr)
+        if isinstance(fn, ast.Name):
+            return modfuncs.get(fn.id)
+        return None
+
+    def list_returning(f, seen=()):
+        """(ok, offending node or None)"""
+        if f in seen:
+            return True, None     # recursion: decided by the other returns
+        seen = seen + (f,)
+        lists = set()
+
+        def is_list(e):
+            if isinstance(e, (ast.List, ast.ListComp)):
+                return True
+            if isinstance(e, ast.Name):
+                return e.id in lists
+            if isinstance(e, ast.BinOp) and isinstance(e.op, ast.Add):
+                return is_list(e.left) and is_list(e.right)
+            if isinstance(e, ast.IfExp):
+                return is_list(e.body) and is_list(e.orelse)
+            if isinstance(e, ast.Call):
+                if call_name(e) in ("sorted", "list"):
+                    return True
+                c = callee(e)
+                return c is not None and list_returning(c, seen)[0]
+            return False
+        changed = True
+        while changed:
+            changed = False
+            for n in walk(f):
+                if isinstance(n, ast.Assign) and len(n.targets) == 1 \
+                        and isinstance(n.targets[0], ast.Name) \
+                        and n.targets[0].id not in lists and is_list(
+                            n.value):
+                    lists.add(n.targets[0].id)
+                    changed = True
+        rets = [n for n in walk(f) if isinstance(n, ast.Return)]
+        bad = [r for r in rets if r.value is None or not is_list(r.value)]
+        if bad:
+            return False, bad[0]
+        if not rets or _falls_off(CFG(f)):
+            return False, None
+        return True, None
     for name in sorted(n for n in model.methods if n.startswith(pattern)):
         f = model.methods[name]
-        lists = set()
-        for n in walk(f):
-            if isinstance(n, ast.Assign) and len(n.targets) == 1 \
-                    and isinstance(n.targets[0], ast.Name) and isinstance(
-                        n.value, (ast.List, ast.ListComp)):
-                lists.add(n.targets[0].id)
-        rets = [n for n in walk(f) if isinstance(n, ast.Return)]
-        bad = [r for r in rets if not (
-            isinstance(r.value, (ast.List, ast.ListComp))
-            or isinstance(r.value, ast.Name) and r.value.id in lists
-            or isinstance(r.value, ast.Call) and call_name(r.value) in (
-                "sorted", "list"))]
-        cfg = CFG(f)
-        falls = _falls_off(cfg)
-        ok = bool(rets) and not bad and not falls
+        ok, bad = list_returning(f)
         ctx.ob("R13.2", ok, f"{name} returns a list on every path" if ok
                else f"{name} can return "
-               + (f"`{short(bad[0], 30)}`" if bad else "None (falls off "
-                  "the end)") + ": `cues += ...` in the collector fails",
-               node=bad[0] if bad else f,
+               + (f"`{short(bad, 30)}`" if bad is not None else
+                  "None (falls off the end)")
+               + ": `cues += ...` in the collector fails",
+               node=bad if bad is not None else f,
                key=f"{CHK}::IntegrityChecker.{name}::returns list")
 
     # levels
@@ -1994,4 +2034,32 @@ TWINS = list(TWINS) + [
        "        for name in sorted(self._pending):\n"
        "            pass\n        self._pending.clear()\n"
        "        # ignore empty features in the checks further below\n")]),
+]
+
+# round-3 refactoring (reduced): a check returns the list of a helper
+TWINS = list(TWINS) + [
+    ("check delegates to a same-class helper that returns the list", CHK,
+     ('    def check_empty(self, **kwargs):\n'
+      '        """The dataset should contain events"""\n'
+      '        cues = []\n',
+      '    def check_empty(self, **kwargs):\n'
+      '        """The dataset should contain events"""\n'
+      '        return self._cues_empty()\n\n'
+      '    def _cues_empty(self):\n'
+      '        cues = []\n')),
+]
+MUTANTS = list(MUTANTS) + [
+    ("check delegates to a helper that forgets to return", CHK,
+     [('    def check_empty(self, **kwargs):\n'
+       '        """The dataset should contain events"""\n'
+       '        cues = []\n',
+       '    def check_empty(self, **kwargs):\n'
+       '        """The dataset should contain events"""\n'
+       '        return self._cues_empty()\n\n'
+       '    def _cues_empty(self):\n'
+       '        cues = []\n'),
+      ('                category="feature data"))\n        return cues\n\n'
+       '    def check_external_links',
+       '                category="feature data"))\n\n'
+       '    def check_external_links')], "R13.2"),
 ]
